@@ -135,6 +135,16 @@ CHECKS["C18"] = ("other",
     "conversion in the parse_* family is an error and never a default value; count counts exactly the non-UnResolved entries.",
     TB % "c18", "table agreement + per-element monitors via abstract interpretation of MIR (no execution)", "DESIGN.md §5 C18")
 
+CHECKS["C14"] = ("other",
+    "NOT layout/comment acceptance in every context nor verdict equality (behavioural). Decided from the nom combinator calls of "
+    "the resolved program: every keyword parser accepts all documented spellings (when/WHEN, in/IN, exists, empty, keys, some, "
+    "this, the seven is_*, true/True, false/False, null/NULL, or/OR/|OR|, not/NOT/!, =/:=) and the spellings of one keyword "
+    "produce one value; parse_string is one parser instantiated with both quotes; .n and [n] both build QueryPart::Index from the "
+    "integer parser; the type-block desugaring (Resources, all values, filter Type == name, match_all, not negated); the implicit "
+    "default rule (named default, no condition, placed first).",
+    "Trusted: rustc front end/MIR, the extractor, the literal-flow extraction in rules/c14.py; nom's combinators (dependency).",
+    "literal-set extraction over the resolved MIR (no execution)", "DESIGN.md §5 C14")
+
 NOT_APPLICABLE = {
 }
 
